@@ -349,14 +349,18 @@ func searchRace(rep *report, d diag, budget time.Duration, g *lib.Rng) (bool, ev
 			}
 		}
 	}
-	if !callable {
-		ev.Tried = append(ev.Tried, d.Func+" is not an exported store method the harness can call directly; full-relay stress used instead")
-		out := runRelayChild(int(budget/time.Second)/2+1, int64(g.Intn(1<<30)))
+	relayFallback := func(secs int) (bool, evidence) {
+		ev.Tried = append(ev.Tried, fmt.Sprintf("full relay under 16 clients (race build, %ds)", secs))
+		out := runRelayChild(secs, int64(g.Intn(1<<30)))
 		if hit, txt := raceOnGuarded(rep, out); hit {
 			ev.Store, ev.A, ev.B, ev.Mode, ev.Evidence = store, method, "(full relay, 16 clients)", "race", txt
 			return true, ev
 		}
 		return false, ev
+	}
+	if !callable {
+		ev.Tried = append(ev.Tried, d.Func+" is not an exported store method the harness can call directly")
+		return relayFallback(int(budget/time.Second)/2 + 1)
 	}
 	isWrite := d.Kind != "unlocked-read"
 	var cands []string
@@ -382,8 +386,8 @@ func searchRace(rep *report, d diag, budget time.Duration, g *lib.Rng) (bool, ev
 		}
 	}
 	if len(cands) == 0 {
-		ev.Tried = append(ev.Tried, "no conflicting exported method found")
-		return false, ev
+		ev.Tried = append(ev.Tried, "no conflicting exported method of "+store+" can be called directly")
+		return relayFallback(int(budget/time.Second)/2 + 1)
 	}
 	start := time.Now()
 	half := budget / 2
@@ -424,6 +428,9 @@ func searchRace(rep *report, d diag, budget time.Duration, g *lib.Rng) (bool, ev
 				return true, ev
 			}
 		}
+	}
+	if rem := budget - time.Since(start); rem > 3*time.Second {
+		return relayFallback(int(rem/time.Second) - 1)
 	}
 	return false, ev
 }
